@@ -265,7 +265,7 @@ class Ctx:
                     f.write(json.dumps(c, separators=(",", ":")) + "\n")
             p = subprocess.run([binary, "run", "-in", fin, "-out", fout, "-workers", str(w),
                                 "-deadline", str(deadline)], capture_output=True, text=True,
-                               timeout=max(600, len(pending) * deadline / max(w, 1) + 600))
+                               timeout=min(86400, max(600, len(pending) * deadline / max(w, 1) + 600)))
             got = []
             if os.path.exists(fout):
                 with open(fout) as f:
